@@ -33,6 +33,8 @@ pub struct GenConfig {
     /// SIMD-tail sweep: width uniform over every residue of the vector lane counts, at least 8
     /// rows, always at least one transform (squeeze-heavy), 16-bit buffers likely
     pub simd_sweep: bool,
+    /// non-default colour encodings in the image header: enum variants and embedded ICC profiles
+    pub colour: bool,
 }
 
 impl GenConfig {
@@ -60,6 +62,7 @@ impl GenConfig {
             max_pixels: 96 * 96,
             safe: true,
             simd_sweep: false,
+            colour: true,
         }
     }
 
@@ -324,11 +327,28 @@ pub fn random_program(rng: &mut Rng, cfg: &GenConfig) -> Program {
         frames: Vec::new(),
         preview: None,
         xyb: false,
+        colour: Default::default(),
     };
 
     if cfg.vardct {
         prog.xyb = true;
         prog.gray = false;
+    }
+    if cfg.colour {
+        // drawn from a generator of its own so that the rest of the program is what it was
+        // before colour variants existed
+        let mut crng = Rng::new(prog.cw_seed ^ 0xC010_0000_0001);
+        prog.colour = match crng.below(20) {
+            0..=10 => super::icc::ColourSpec::Default,
+            11..=15 => {
+                let mut e = super::icc::EnumSpec::random(&mut crng, false);
+                if cfg.safe && e.tf == 2 {
+                    e.tf = 13; // rendered_icc() panics for the Unknown transfer function (known finding F9)
+                }
+                super::icc::ColourSpec::Enum(e)
+            }
+            _ => super::icc::ColourSpec::Icc(super::icc::IccSpec::random(&mut crng)),
+        };
     }
     for fi in 0..nframes {
         let is_last = fi + 1 == nframes;
@@ -675,6 +695,7 @@ pub fn minimal_program(width: u32, height: u32, seed: u64) -> Program {
         frames: vec![f],
         preview: None,
         xyb: false,
+        colour: Default::default(),
     }
 }
 
